@@ -221,6 +221,8 @@ def oracle(path, c, out, before, after, baked_keys):
             fails.append(f"bake returned names {baked_keys}, declared {sorted(names[x] for x in after[3])}")
     if out[0] == 'ok' and k in STEP_ADDING and after[2] != nsteps + 1:
         fails.append(f"{c} accepted but the number of steps went from {nsteps} to {after[2]}")
+    if k == 'bake' and out[0] != 'ok' and after[0] and not locked:
+        fails.append(f"a refused bake ({out[1]}) locked the recipe: only a successful bake does")
     if out[0] != 'ok' and k not in ('uses', 'uses_iter', 'uses_list') and k != 'bake' and after != before:
         fails.append(f"rejected call {c} changed the recipe state")
     return fails
